@@ -31,7 +31,7 @@ func VsymC28_Metadata() {
 	names := []string{"alpha", "beta"}
 	var topics []protocol.MetadataTopic
 	for i := 0; i < nt; i++ {
-		t := protocol.MetadataTopic{Topic: kmsg.StringPtr(names[i]), TopicID: metadata.TopicIDForName(names[i])}
+		t := protocol.MetadataTopic{Topic: kmsg.StringPtr(names[i]), TopicID: metadata.TopicIDForName(names[i]), ErrorCode: vsym_Int16("topicErr")}
 		for p := 0; p < np; p++ {
 			t.Partitions = append(t.Partitions, protocol.MetadataPartition{
 				ErrorCode:   vsym_Int16("partErr"),
